@@ -1,26 +1,42 @@
 /-
-  Proj — memo-free reading of the same analysis: what a module's table, an imported name and a request
-  denote on a given disk, with no project state at all.  Used by the proofs as the meaning of the cached
-  values (`Lemmas*.lean`); `fuel` is recursion depth, as in the model.
+  Proj — memo-free reading of the same analysis: what a directory's package path, a module's table and an
+  imported name denote on a given disk, with no project state at all.  Used by the proofs as the meaning of
+  the cached values (`Lemmas*.lean`); `fuel` is recursion depth, as in the model.
 -/
 import SuppModel.Proj.Model
 
 namespace SuppModel.Proj
 
-def pBuild (scope : Mod → Except Err (Option Table)) : Src → Nat → Table → Except Err Table
+/-- `_package_parts(root)` on disk `E` -/
+def pParts (E : Disk) (root : Mod) : List Ident := Norm.parts (pkOf E) (root.length + 1) root
+
+/-- what `'.' * (up + 1) + m` means for a file in directory `dir` (`none`: not a package) -/
+def pNorm (E : Disk) (dir : Mod) (up : Nat) (m : Mod) : Option Mod :=
+  if (pParts E (Norm.dropLastN up dir)).isEmpty then none else some (pParts E (Norm.dropLastN up dir) ++ m)
+
+def pBuild (E : Disk) (dir : Mod) (scope : Mod → Except Err (Option Table)) : Src → Nat → Table → Except Err Table
   | [], _, acc => .ok acc
-  | .bind x p :: r, ln, acc => pBuild scope r (ln + 1) (acc ++ [.own x ln p])
-  | .imp m :: r, ln, acc => pBuild scope r (ln + 1) (acc ++ [.imp m ln [m] none])
-  | .frm m x y :: r, ln, acc => pBuild scope r (ln + 1) (acc ++ [.imp y ln m (some x)])
-  | .rfrm up m x y :: r, ln, acc => pBuild scope r (ln + 1) (acc ++ [.rimp y ln up m (some x)])
-  | .rstar _ _ :: r, ln, acc => pBuild scope r (ln + 1) acc   -- relative star imports: not given a meaning here
+  | .bind x p :: r, ln, acc => pBuild E dir scope r (ln + 1) (acc ++ [.own x ln p])
+  | .imp m :: r, ln, acc => pBuild E dir scope r (ln + 1) (acc ++ [.imp m ln [m] none])
+  | .frm m x y :: r, ln, acc => pBuild E dir scope r (ln + 1) (acc ++ [.imp y ln m (some x)])
+  | .rfrm up m x y :: r, ln, acc => pBuild E dir scope r (ln + 1) (acc ++ [.rimp y ln up m (some x)])
   | .star m :: r, ln, acc =>
     match scope m with
     | .error e => .error e
-    | .ok none => pBuild scope r (ln + 1) acc
+    | .ok none => pBuild E dir scope r (ln + 1) acc
     | .ok (some t) =>
-      pBuild scope r (ln + 1)
+      pBuild E dir scope r (ln + 1)
         (acc ++ ((exportedNames t).filter (fun x => !hidden x)).map (fun x => .imp x ln m (some x)))
+  | .rstar up m :: r, ln, acc =>
+    match pNorm E dir up m with
+    | none => pBuild E dir scope r (ln + 1) acc
+    | some m' =>
+      match scope m' with
+      | .error e => .error e
+      | .ok none => pBuild E dir scope r (ln + 1) acc
+      | .ok (some t) =>
+        pBuild E dir scope r (ln + 1)
+          (acc ++ ((exportedNames t).filter (fun x => !hidden x)).map (fun x => .rimp x ln up m (some x)))
 
 /-- the table of module `m` on disk `D` (`none`: no such file) -/
 def pTable (D : Disk) : Nat → Mod → Except Err (Option Table)
@@ -31,7 +47,7 @@ def pTable (D : Disk) : Nat → Mod → Except Err (Option Table)
     match get D m with
     | none => .ok none
     | some f =>
-      match pBuild (pTable D n) f.src 1 [] with
+      match pBuild D (dirOf (some m)) (pTable D n) f.src 1 [] with
       | .error e => .error e
       | .ok t => .ok (some t)
 
@@ -46,5 +62,12 @@ def pResolve (D : Disk) (n : Nat) (m : Mod) : Option Ident → Except Err (Optio
       | .error e => .error e
       | .ok none => .ok none
       | .ok (some t) => .ok ((lookupLast a t).map (.entry m))
+
+/-- the same for the relative name `'.' * (up + 1) + m` seen from directory `dir` -/
+def pResolveR (D : Disk) (n : Nat) (dir : Mod) (up : Nat) (m : Mod) (mname : Option Ident) :
+    Except Err (Option Target) :=
+  match pNorm D dir up m with
+  | none => .ok none
+  | some m' => pResolve D n m' mname
 
 end SuppModel.Proj
